@@ -125,6 +125,7 @@ type world struct {
 func newWorld(npre int, mount string, seed ...seedEnt) (*world, error) {
 	w := &world{ctx: context.Background(), m: fsmodel.New(npre), mount: mount}
 	w.m.ReadOnly = mount == "dirfs" || mount == "mapfs"
+	w.m.NoTrailingSlash = w.m.ReadOnly
 	w.base = filepath.Join(evid.WorkDir(), fmt.Sprintf("case-%d", caseCounter.Add(1)))
 	os.RemoveAll(w.base)
 	fsc := wazero.NewFSConfig()
@@ -1528,7 +1529,9 @@ func runHistoryProp(t *rapid.T) {
 	npre := rapid.SampledFrom([]int{1, 1, 1, 2}).Draw(t, "npre")
 	// mount kind: most histories use the writable directory mount; the read-only fs.FS
 	// mounts (other File implementation in wazero: fsFile) get a richer seed tree
-	mount := rapid.SampledFrom([]string{"dir", "dir", "dir", "dir", "dirfs", "dir", "mapfs", "dir", "dirfs", "dir"}).Draw(t, "mount")
+	// (a MapFS is used by the readdir generator only: its files refuse offsets beyond EOF and
+	// its lookups answer ENOENT below a file, which says nothing about wazero)
+	mount := rapid.SampledFrom([]string{"dir", "dir", "dirfs", "dir", "dir", "dirfs", "dir", "dir"}).Draw(t, "mount")
 	seed := genSeed(t, mount != "dir")
 	w, err := newWorld(npre, mount, seed...)
 	if err != nil {
